@@ -9,11 +9,11 @@ use crate::run::{panic_site, run_query, End};
 use serde_json::{json, Value};
 use std::collections::BTreeMap;
 
-fn values(quick: bool) -> Vec<i64> {
-    if quick {
-        vec![-2, 0, 1, 3]
-    } else {
-        vec![-3, -2, 0, 1, 2, 6]
+fn values(level: u8) -> Vec<i64> {
+    match level {
+        0 => vec![-2, 0, 1, 3],
+        1 => vec![-3, -2, 0, 1, 2, 6],
+        _ => vec![-4, -3, -2, -1, 0, 1, 2, 6],
     }
 }
 
@@ -113,10 +113,11 @@ struct CaseZ {
     partner: Option<(u32, u32)>,
 }
 
-fn cases(quick: bool) -> Vec<CaseZ> {
+fn cases(level: u8) -> Vec<CaseZ> {
+    let quick = level == 0;
     let vars = [T::V(0), T::V(1), T::V(2)];
     let mut operand_choices: Vec<T> = vars.to_vec();
-    for v in values(quick) {
+    for v in values(level) {
         operand_choices.push(T::I(v));
     }
     let mut out = vec![];
@@ -138,7 +139,7 @@ fn cases(quick: bool) -> Vec<CaseZ> {
             let aliased = pat.iter().filter(|t| t.is_var()).count() > used.len();
             // groundness patterns: each used variable unbound or bound to one of the values
             let mut opts: Vec<Option<i64>> = vec![None];
-            opts.extend(values(quick).iter().map(|v| Some(*v)));
+            opts.extend(values(level).iter().map(|v| Some(*v)));
             let vals: Vec<Option<i64>> = if quick { vec![None, Some(-2), Some(0), Some(3)] } else { opts };
             for asg in crate::e4::product(&vals, used.len()) {
                 let mut stmts: Vec<G> = vec![goal_of(&con)];
@@ -315,8 +316,8 @@ fn check(c: &CaseZ, index: usize) -> (Vec<Violation>, &'static str) {
 
 pub fn run(ctx: &mut Ctx) {
     let quick = ctx.quick();
-    ctx.set("rule", json!("E3: plusz / timesz x every operand pattern over {x, y, z} and {-2, 0, 1, 3} (all aliasings) x every groundness pattern (each variable never bound or bound to one of the values by a separate `==`) x EVERY order of the statements, plus chains of two constraints sharing a variable, plus single constraints one of whose operands is unified with a partner variable by a separate `==` (both orientations, the value bound directly or through the partner, every statement order; the partner is observed too); oracle: integer arithmetic closure (all ground -> equation must hold; two ground -> third bound to the unique solution, failure if none, still constrained if every integer works; fewer -> still constrained); never a panic. distinct_nontrivial = cases where a third operand is derived."));
-    let cs = cases(quick);
+    ctx.set("rule", json!("E3: plusz / timesz x every operand pattern over {x, y, z} and {-3, -2, 0, 1, 2, 6} (thorough: 8 values) (all aliasings) x every groundness pattern (each variable never bound or bound to one of the values by a separate `==`) x EVERY order of the statements, plus chains of two constraints sharing a variable, plus single constraints one of whose operands is unified with a partner variable by a separate `==` (both orientations, the value bound directly or through the partner, every statement order; the partner is observed too); oracle: integer arithmetic closure (all ground -> equation must hold; two ground -> third bound to the unique solution, failure if none, still constrained if every integer works; fewer -> still constrained); never a panic. distinct_nontrivial = cases where a third operand is derived."));
+    let cs = cases(if quick { 1 } else { 2 });
     let sel: Vec<usize> = match &ctx.replay {
         Some(r) if r.family == "c19" => vec![r.index],
         Some(_) => vec![],
@@ -345,5 +346,5 @@ pub fn run(ctx: &mut Ctx) {
     for k in ["fails", "binds-third", "stays-constrained", "succeeds"] {
         ctx.require_nonzero(k);
     }
-    ctx.assume("values in {-2, 0, 1, 3} (thorough: {-3, -2, 0, 1, 2, 6}); with the same variable in two operand positions and fewer than two positions ground only soundness is judged");
+    ctx.assume("values in {-3, -2, 0, 1, 2, 6} (thorough: {-4, -3, -2, -1, 0, 1, 2, 6}); with the same variable in two operand positions and fewer than two positions ground only soundness is judged");
 }
